@@ -533,3 +533,51 @@ Proof.
     + replace (find_chunk B s <=? find_chunk B (e - 1)) with false by lia. reflexivity.
 Qed.
 End SliceCases.
+
+(* bounds beyond the end (asked for by C03: _extract_waveform reads traces[max(0, t0):t1] with t1 > n): NumPy
+   clips them to n, and so does phylib's min(., n).  Only the lower limit -n of the statement's range is kept. *)
+Definition bound_lo (n : Z) (x : option Z) : Prop := match x with None => True | Some v => - n <= v end.
+
+Lemma phy_np_bound_lo n d x : 0 < n -> bound_lo n x -> (d = 0 \/ (d = n /\ x <> Some 0)) ->
+  phy_bound n d x = np_bound n d x.
+Proof.
+  intros Hn Hb Hd. destruct x as [v|]; [|unfold phy_bound, np_bound, or_default; destruct Hd as [->|[-> _]];
+    [replace (0 <? 0) with false by lia|replace (n <? 0) with false by lia]; lia].
+  cbn [bound_lo] in Hb. destruct (Z_le_gt_dec v n) as [Hle|Hgt].
+  - destruct Hd as [->|[-> Hne]].
+    + apply phy_bound_start; [assumption|cbn [bound_ok]; lia].
+    + destruct (Z.eq_dec v 0) as [->|Hv0]; [congruence|].
+      destruct (Z.eq_dec v (- n)) as [->|Hvn].
+      * unfold phy_bound, np_bound, or_default. replace (- n =? 0) with false by lia.
+        replace (- n <? 0) with true by lia. replace (- n + n) with 0 by lia.
+        replace (- n mod n) with 0; [lia|]. symmetry. apply Z.mod_opp_l_z; [lia|]. apply Z.mod_same; lia.
+      * apply phy_bound_stop; [assumption|cbn [bound_ok]; lia|]. unfold np_bound.
+        destruct (v <? 0) eqn:E; lia.
+  - unfold phy_bound, np_bound, or_default. replace (v =? 0) with false by lia.
+    replace (v <? 0) with false by lia. reflexivity.
+Qed.
+
+Section SliceClipped.
+Context {A : Type}.
+Implicit Types (parts : list (list (list A))).
+
+(* C01_slice without the upper limit on the bounds: start, stop in {None} u [-n, +oo), unit step, NumPy
+   selection non-empty *)
+Theorem getitem_slice_clipped parts start stop step :
+  let n := zlen (concat parts) in
+  0 < n -> unit_step step -> bound_lo n start -> bound_lo n stop ->
+  np_bound n 0 start < np_bound n n stop ->
+  getitem_rows parts (ISlice start stop step) =
+  Some (slice (concat parts) (np_bound n 0 start) (np_bound n n stop)).
+Proof.
+  intros n Hn Hstep Hbs Hbe Hse.
+  assert (Hst : or_default step 1 = 1) by (destruct Hstep as [->| ->]; reflexivity).
+  assert (Hne : stop <> Some 0).
+  { intros ->. unfold np_bound in Hse at 2. cbn in Hse.
+    pose proof (np_bound_range n 0 start ltac:(lia) ltac:(lia)). lia. }
+  destruct (getitem_slice_cases parts start stop step Hn Hst) as (H & _). fold n in H.
+  rewrite (phy_np_bound_lo n 0 start Hn Hbs (or_introl eq_refl)) in H.
+  rewrite (phy_np_bound_lo n n stop Hn Hbe (or_intror (conj eq_refl Hne))) in H.
+  specialize (H Hse). rewrite <- erase_getitem_rows, H. reflexivity.
+Qed.
+End SliceClipped.
